@@ -22,13 +22,13 @@ NATIVE_OK = {"C04"}
 PROP_MODULES = {
     "C01": [("C01Prime", r"add_spec|sub_spec|mul_spec|neg_spec|mul_no_overflow|element_spec|fromSigned|beq_iff|repr_unique|isZero_iff|isOne_iff|zero_one_repr|primeOps_lawful|primeLawful|primeOps_ofNat|primeOps_ofInt|primeOps_char_card"),
             ("C01Bin", r"^(?!.*(pow|inv|bitProd|bitQuoRem|trace)).*$"), ("C01Ext", r"^(?!.*(pow|inv|trace|log)).*$"), ("C01", r".*"),
-            ("CodeTies", r"reduce_tie")],
+            ("CodeTies", r"reduce_tie"), ("CodeTies2", r"prime_add|prime_sub|prime_prod|prime_setneg|prime_fromSigned|bin_add|bin_prod")],
     "C02": [("C01Prime", r"inv_|invLoop|pow|powLoop"), ("C01Bin", r"pow|inv|bitProd|bitQuoRem|trace"), ("C02", r".*"),
-            ("C01Ext", r"pow|inv|trace"), ("CodeTies", r"bitProd_tie|bitQuoRem_tie")],
+            ("C01Ext", r"pow|inv|trace"), ("CodeTies", r"bitProd_tie|bitQuoRem_tie"), ("CodeTies2", r"prime_inv")],
     "C08": [("C08", r".*"), ("CodeTies", r"addDegs_tie|subtractDegs_tie")],
     "C09": [("C09", r".*"), ("CodeTies", r"swap_tie|lex_tie|lex_fun_tie|degCompare_tie|wdeglex_tie|wdegrevlex_tie|deglex_tie|degrevlex_tie")],
-    "C19": [("C19", r".*"), ("CodeTies", r"boundSqrt_tie|boundLog2_tie|pow_tie|gcd_tie")],
-    "C03": [("C03", r".*"), ("C01Prime", r"multGenerator|isGenerator"), ("GenTies", r"DefineConds|ffDefineCases")],
+    "C19": [("C19", r".*"), ("CodeTies", r"boundSqrt_tie|boundLog2_tie|pow_tie|gcd_tie"), ("CodeTies2", r"fpp_")],
+    "C03": [("C03", r".*"), ("C01Prime", r"multGenerator|isGenerator"), ("GenTies", r"DefineConds|ffDefineCases"), ("CodeTies2", r"fpp_")],
     "C15": [("C15", r".*"), ("GenTies", r"Pattern|Regex|XOrY|regex|VarName")],
     "C16": [("C16", r".*"), ("C16Static", r".*")],
     "C17": [("C17", r".*"), ("GenTies", r"kindNames"), ("C15", r"parse_total")],
